@@ -42,6 +42,8 @@ def base_model(variant='plain'):
         ops['cpl'] = families.op_diff_alg(fp)
         etp = {'ei': EdgeTplSpec('ei', ['cpl'])}
         e0 = EdgeSpec('n0/o1/x', 'n1/o1/u', fp(), template='ei', var_map={'qs': 'source', 'qt': 'n1/o1/x'})
+    elif variant == 'edge-delay':
+        e0 = EdgeSpec('n0/o1/x', 'n1/o1/u', fp(), delay=F(1))
     else:
         e0 = EdgeSpec('n0/o1/x', 'n1/o1/u', fp())
     edges = [e0, EdgeSpec('m0/li/x', 'n0/o1/u', fp()), EdgeSpec('n1/o1/x', 'm0/li/u', fp())]
@@ -57,6 +59,9 @@ SCENARIOS = {
     'shared-template': dict(map={'k': dict(vars=['o1/k'], nodes=['n0']), 'g': dict(vars=['o1/g'], nodes=['n1'])},
                             variant='shared'),
     'edge-input': dict(map={'k': dict(vars=['o1/k'], nodes=['n0'])}, variant='edge-input'),
+    # sweep over an edge delay that is realised as an ODE chain (dde_approx=2): rates 2/d that round to one integer
+    'edge-delay': dict(map={'d': dict(vars=['delay'], edges=[('n0/o1/x', 'n1/o1/u')])}, variant='edge-delay',
+                       values={'d': [F(1), F(11, 10), F(5, 4), F(9, 10)]}, run_kw=dict(dde_approx=2)),
 }
 
 
@@ -72,6 +77,8 @@ def job_fn(job):
     pmap = dict(sc['map'])
     pmap.update(state_keys)
     grid = {k: [fp() for _ in range(rows)] for k in pmap}
+    for k, vals_ in sc.get('values', {}).items():
+        grid[k] = list(vals_[:rows])
     order = list(range(rows))
     if job.get('reverse'):
         order = order[::-1]
@@ -88,7 +95,7 @@ def job_fn(job):
             nn.template = None          # the expected model is per node; sharing is a property of the input only
             nodes[f"{cname(r)}/{n}"] = nn
         for e in base.edges:
-            edges.append(EdgeSpec(f"{cname(r)}/{e.src}", f"{cname(r)}/{e.tgt}", e.weight, template=e.template,
+            edges.append(EdgeSpec(f"{cname(r)}/{e.src}", f"{cname(r)}/{e.tgt}", e.weight, delay=e.delay, template=e.template,
                                   var_map={k_: (v_ if v_ == 'source' else f"{cname(r)}/{v_}")
                                            for k_, v_ in e.var_map.items()}))
         for key, m in pmap.items():
@@ -102,7 +109,10 @@ def job_fn(job):
                 for (s, t) in m['edges']:
                     for i, e in enumerate(edges):
                         if e.src == f"{cname(r)}/{s}" and e.tgt == f"{cname(r)}/{t}":
-                            edges[i] = EdgeSpec(e.src, e.tgt, val, template=e.template, var_map=e.var_map)
+                            if m['vars'] == ['delay']:
+                                edges[i] = EdgeSpec(e.src, e.tgt, e.weight, delay=val, template=e.template, var_map=e.var_map)
+                            else:
+                                edges[i] = EdgeSpec(e.src, e.tgt, val, delay=e.delay, template=e.template, var_map=e.var_map)
     exp = ModelSpec('top_lvl', base.ops, nodes, edges, base.edge_tpls, note=f"grid_search {job['scenario']} rows={rows}")
     ct = build_python(base)
     cap = {}
@@ -152,7 +162,7 @@ def job_fn(job):
                     ct_arg = f"{wd}/gs/{ct.name}"
                 df, ptable = grid_search(ct_arg, grid_arg, pmap, step_size=0.25, simulation_time=0.75, outputs=dict(outs),
                                          inputs=inputs, vectorize=job['vectorize'], verbose=False, in_place=False,
-                                         float_precision='float64', solver='euler', clear=False)
+                                         float_precision='float64', solver='euler', clear=False, **sc.get('run_kw', {}))
             except Exception as e:   # noqa
                 out['compile_error'] = f"{type(e).__name__}: {e}"
                 out['tally'] = tally.as_dict()
@@ -164,8 +174,12 @@ def job_fn(job):
             if inputs:
                 tn = sc['input'].rsplit('/', 2)
                 ext = {(f"{cname(r)}/{tn[0]}", tn[1], tn[2]): [U[k]] for r in range(rows)}
+            plugin = None
+            if sc.get('run_kw', {}).get('dde_approx'):
+                from .. import tvdelay
+                plugin = tvdelay.ChainPlugin(order_of=lambda e, n_=sc['run_kw']['dde_approx']: n_)
             res = tvspec.validate(exp, _with_smap(c, exp), tally, vectorized=True, ext_inputs=ext, t_sym=int(k),
-                                  extra_table=table)
+                                  extra_table=table, plugin=plugin)
             out['violations'] += res['violations']
             out['inconclusive'] += res['inconclusive']
             out['obligations'] += res['obligations']
@@ -251,6 +265,8 @@ def run(tier='quick', seed=0, only=None, verbose=False):
     jobs = []
     for sc in SCENARIOS:
         for rows in ((2, 3) if tier == 'quick' else (2, 3, 4, 5)):
+            if sc == 'edge-delay' and rows > 4:
+                continue
             for vec in (True, False):
                 for rev in (False, True):
                     if tier == 'quick' and rev and not vec:
